@@ -3,13 +3,17 @@ package main
 
 import (
 	"bytes"
+	"errors"
 	"fmt"
 	"runtime"
 	"strings"
 	"sync"
+	"sync/atomic"
 	"time"
 
+	"github.com/b2broker/simplefix-go/fix"
 	"github.com/b2broker/simplefix-go/session"
+	"github.com/b2broker/simplefix-go/storages/memory"
 	fixgen "github.com/b2broker/simplefix-go/tests/fix44"
 
 	"verifharness/fixref"
@@ -46,12 +50,20 @@ func idFor(c *vk.Ctx, i int) []byte {
 
 func main() {
 	c := vk.Init("C14")
-	c.Rule("TestReqID values: every single byte value except SOH (255), 40 decoys ('112=', '10=000', '35=A', '=', spaces, digits, NUL, high bytes, text resembling other fields), lengths up to 10000, random strings; each injected at every kind of position of a logged-on history (directly after logon, several in a row, between Heartbeats / application messages / rejected messages / local sends), both roles; plus real-time sessions (N=1) in which the session's own TestRequest is pending when the peer's TestRequests arrive; plus real-time sessions observed for 2.4 s after an answer (the periodic Heartbeats that follow must not carry the TestReqID again); plus sessions on the full stack (scripted net.Conn, connection reader/writer) given identifiers of 1..70000 bytes incl. every length 4088..4104 and 8184..8200, and bursts of 40 TestRequests against a slowly reading peer (handler buffers 0/1/4/10; answers must come in request order). Oracle per TestRequest step: exactly one message emitted in that step (so before any later reply), MsgType 0, its 112 value (reference tokenizer) byte-equal to the ID. distinct = distinct (ID bytes, role, context); non-trivial = all")
+	c.Rule("TestReqID values: every single byte value except SOH (255), 40 decoys ('112=', '10=000', '35=A', '=', spaces, digits, NUL, high bytes, text resembling other fields), lengths up to 10000, random strings; each injected at every kind of position of a logged-on history (directly after logon, several in a row, between Heartbeats / application messages / rejected messages / local sends), both roles; every fifth session on a counter store that fails once to record the TestRequest's incoming number; plus real-time sessions (N=1) in which the session's own TestRequest is pending when the peer's TestRequests arrive; plus real-time sessions observed for 2.4 s after an answer (the periodic Heartbeats that follow must not carry the TestReqID again); plus sessions on the full stack (scripted net.Conn, connection reader/writer) given identifiers of 1..70000 bytes incl. every length 4088..4104 and 8184..8200, and bursts of 40 TestRequests against a slowly reading peer (handler buffers 0/1/4/10; answers must come in request order). Oracle per TestRequest step: exactly one message emitted in that step (so before any later reply), MsgType 0, its 112 value (reference tokenizer) byte-equal to the ID. distinct = distinct (ID bytes, role, context); non-trivial = all")
 	n := c.Pick(700, 12000)
 	vk.Parallel(n, runtime.NumCPU(), func(i int) {
 		r := c.Rand("c14", int64(i))
 		role := rig.Role(i % 2)
-		rg, err := rig.NewStepRig(rig.StepCfg{Role: role, HeartBtInt: 30, Limits: &session.IntLimits{Min: 5, Max: 60}})
+		// every fifth session runs on a counter store that, when armed, fails once to record an incoming sequence
+		// number (a transient fault of the application's store): the TestRequest was received all the same
+		scfg := rig.StepCfg{Role: role, HeartBtInt: 30, Limits: &session.IntLimits{Min: 5, Max: 60}}
+		var flaky *flakyCounter
+		if i%5 == 2 {
+			flaky = &flakyCounter{Storage: memory.NewStorage()}
+			scfg.Counter, scfg.Messages, scfg.SentinelBarrier = flaky, flaky, true
+		}
+		rg, err := rig.NewStepRig(scfg)
 		if err != nil {
 			c.Inconclusive("rig: " + err.Error())
 			return
@@ -85,6 +97,11 @@ func main() {
 				id = idFor(c, i)
 			}
 			msg := p.Msg("1", fixref.Field{Tag: rig.TTestReqID, Val: id})
+			if flaky != nil && r.Intn(2) == 0 {
+				atomic.StoreInt32(&flaky.armed, 1)
+				ctx = append(ctx, "counter-store-fault")
+				c.Count("testrequests_whose_incoming_number_could_not_be_recorded", 1)
+			}
 			res := rg.Inbound(msg)
 			ctx = append(ctx, "TR")
 			if res.TimedOut {
@@ -369,6 +386,19 @@ func fullStack(c *vk.Ctx) {
 		}
 	}
 	wg.Wait()
+}
+
+// flakyCounter is the bundled store whose next SetSeqNum for the incoming side fails once when armed.
+type flakyCounter struct {
+	*memory.Storage
+	armed int32
+}
+
+func (f *flakyCounter) SetSeqNum(id fix.StorageID, n int) error {
+	if id.Side == fix.Incoming && atomic.CompareAndSwapInt32(&f.armed, 1, 0) {
+		return errors.New("scripted: counter store unavailable")
+	}
+	return f.Storage.SetSeqNum(id, n)
 }
 
 func max(a, b int) int {
